@@ -214,6 +214,7 @@ def check_case(ctx, case):
         if r.get('panic'):
             return res.violate('crash', 'panic: ' + r['panic'][:300], steps=steps)
     st = Stream()
+    idmap = {}
     assigned = {}       # target id -> [patch bodies] in order
     base = {}
     nontrivial = False
@@ -246,8 +247,16 @@ def check_case(ctx, case):
                                steps=steps, step=i, model_docs=st.docs)
         real = [(d['id'], d['data']) for d in dr['docs']]
         want = [(d[0], d[1]) for d in st.docs]
-        if [x[0] for x in real] != [x[0] for x in want]:
+        # ids of documents appended for $match: null are chosen by the implementation: not judged beyond position and uniqueness
+        def same_ids(ra, wa):
+            if len(ra) != len(wa) or len(set(ra)) != len(ra):
+                return False
+            return all(r == w or w.endswith('|matchnull') for r, w in zip(ra, wa))
+        if not same_ids([x[0] for x in real], [x[0] for x in want]):
             return res.violate('select', 'document list/order after %s is %s, the rules give %s' % (s['id'], [x[0] for x in real], [x[0] for x in want]), steps=steps, step=i)
+        for (rid, _), (wid, _) in zip(real, want):
+            if wid.endswith('|matchnull'):
+                idmap[wid] = rid
         for (rid, rdata), (wid, wdata) in zip(real, want):
             if not veq(rdata, wdata):
                 return res.violate('isolate', 'document %s after layer document %s differs from what it gets on its own' % (rid, s['id']),
@@ -265,8 +274,9 @@ def check_case(ctx, case):
     if ended is None:
         evs = [tuple(e.split('\t')) for e in resp.get('events', [])]
         got_log = [('merge', e[1], e[2]) if e[0] == 'merge' else ('append', e[1]) for e in evs if e[0] in ('merge', 'append')]
-        if got_log != st.log:
-            return res.violate('select', 'merge/append events differ from the selection rules', steps=steps, events=got_log, expect=st.log)
+        want_log = [tuple(idmap.get(x, x) for x in e) for e in st.log]
+        if got_log != want_log:
+            return res.violate('select', 'merge/append events differ from the selection rules', steps=steps, events=got_log, expect=want_log)
         res.ev('selection_events_checked', len(got_log))
         # (3) isolation re-run with the real merge, one fresh parser per final document
         ops2 = []
